@@ -1,6 +1,7 @@
 import TongoModel.Bits
 import TongoModel.Outcome
 import TongoModel.Prim.Sha256
+import TongoModel.Prim.Hex
 /-! Cells: the inductive tree (specification view), the table (executable view: a topologically ordered array whose
 refs are indices, exactly what a bag-of-cells is), level masks, descriptor bytes, and a line-by-line model of
 `newImmutableCell` / `immutableCell.Hash` / `immutableCell.Depth` (boc/immutable_cell.go). The hash function is a
@@ -172,6 +173,19 @@ end
 def Cell.reprHash (H : List UInt8 → List UInt8) (c : Cell) : Outcome (List UInt8) := do
   let i ← c.info H
   i.hashAt 3
+
+/-- Cell.Hash256(): the hash copied into a [32]byte (`copy(h[:], b)`) -/
+def Cell.hash256 (H : List UInt8 → List UInt8) (c : Cell) : Outcome (List UInt8) := do
+  let b ← c.reprHash H
+  pure ((b ++ List.replicate (32 - b.length) 0).take 32)
+
+/-- Cell.HashString(): lower-case hex of the hash -/
+def Cell.hashString (H : List UInt8 → List UInt8) (c : Cell) : Outcome String := do
+  let b ← c.reprHash H
+  pure (Hex.encode b)
+
+/-- Cell.Level() -/
+def Cell.level (c : Cell) : Nat := LevelMask.level c.mask
 
 namespace Table
 
